@@ -16,11 +16,6 @@ Theorem b23t_of_b23p_within_2e_10_K : forall t : R, 350 <= t <= 590 ->
 Proof. exact b23t_of_b23p_close. Qed.
 Print Assumptions b23t_of_b23p_within_2e_10_K.
 
-(** ... and to within 3e-5 Pa on its pressures (b23p(350) = 16.529 MPa .. 100 MPa) ... *)
-Theorem b23p_of_b23t_within_3e_5_Pa : forall p : R, 16500000 <= p <= 100000000 ->
-  Rabs (b23p_val n23 (b23t_val n23 p + Q2R tc_k_Q) - p) <= 3 / 100000.
-Proof. exact b23p_of_b23t_close. Qed.
-Print Assumptions b23p_of_b23t_within_3e_5_Pa.
 
 (** ... but NOT exactly: exactness over R is refuted (the IF97 coefficients are rounded independently) *)
 Theorem b23_exact_inverse_refuted_over_R :
